@@ -84,6 +84,24 @@ def run_names(unit):
         rec('no parameter accepted by a simulator class is missing from the request schema [region: the recorded list of names]', False,
             {'missing (recorded)': [n for n in missing if n in known_missing]}, finding='C19-schema-misses-unenumerated-sources')
     rec('the request schema lists no parameter that no simulator class accepts', not extra, {'extra': extra[:20]})
+    # the schema is a function of the code, not of what was run before in the process: generate it again after real models have read
+    # non-default inputs (list-valued and segment parameters included) and compare
+    try:
+        for params in ({'Reservoir Model': 4, 'Number of Segments': 2, 'Gradient 1': 70, 'Gradient 2': 40, 'Thickness 1': 1.5, 'Reservoir Depth': 4,
+                        'End-Use Option': 2, 'Power Plant Type': 9, 'Plant Lifetime': 7, 'Fracture Shape': 2, 'Print Output to Console': 0},
+                       {'Reservoir Model': 3, 'Gradient 1': 65, 'End-Use Option': 1, 'Power Plant Type': 1, 'Plant Lifetime': 9, 'Economic Model': 3,
+                        'Print Output to Console': 0}):
+            with contextlib.redirect_stdout(io.StringIO()):
+                gx.make_model(params)
+        with contextlib.redirect_stdout(io.StringIO()):
+            req2, res2 = SG.GeophiresXSchemaGenerator().generate_json_schema()
+        changed = [k for k in set(req['properties']) | set(req2['properties']) if req['properties'].get(k) != req2['properties'].get(k)]
+        rec('the generated request schema does not depend on the runs performed earlier in the process', not changed,
+            {'entries that changed after two ordinary runs': changed[:10],
+             'before / after': {k: [json.dumps(req['properties'].get(k))[:200], json.dumps(req2['properties'].get(k))[:200]] for k in changed[:3]}})
+        rec('the generated result schema does not depend on the runs performed earlier in the process', json.dumps(res, sort_keys=True, default=str) == json.dumps(res2, sort_keys=True, default=str), {})
+    except Exception as e:
+        log.note(f'schema-after-runs comparison skipped: {type(e).__name__} {str(e)[:100]}')
     # committed files equal the generated ones
     d = os.path.dirname(SG.__file__)
     for fn, generated in (('geophires-request.json', req), ('geophires-result.json', res)):
